@@ -298,11 +298,20 @@ def derive_square(ctx, pol, kinds, cls: ClassInfo):
         init = table.resolve(cls, '__init__')
         ok = False
         if init and isinstance(init.node, ast.FunctionDef):
-            for p in function_paths(init.node):
-                if p.exit == 'raise' and exception_name(p.node) == 'ValueError':
-                    txt = ' '.join(ast.unparse(ev[1]) for ev in p.events if ev[0] == 'cond')
-                    if 'shape[0] != matrix.shape[1]' in txt or 'shape[1] != matrix.shape[0]' in txt:
-                        ok = True
+            from ..terms import raise_paths
+
+            stored = None
+            for st in ast.walk(init.node):
+                if isinstance(st, ast.Assign) and any(isinstance(t, ast.Attribute) and t.attr == 'matrix' for t in st.targets):
+                    stored = st
+            for fs, env, p in raise_paths(init.node, 'ValueError'):
+                for f in fs:
+                    if f[0] == 'ne' and len(f[1]) == 2:
+                        a, b = tuple(f[1])
+                        if a[0] == 'sub' and b[0] == 'sub' and a[1] == b[1] and a[1][0] == 'attr' and a[1][2] == 'shape' and {a[2], b[2]} == {('const', '0'), ('const', '1')}:
+                            m = a[1][1]
+                            if stored is not None and term(stored.value, env) == m:
+                                ok = True
         return ok, 'constructor guard: the matrix is square' if ok else 'no constructor guard that the matrix is square'
     if table.is_subclass(cls, f'{CORE}._AbstractLazyDualOperator'):
         return _derive_orthogonal(ctx, pol, kinds, cls)
